@@ -1507,3 +1507,33 @@ Proof.
   - split; [tauto|]. intros [Hj [Lj E]]. split; [|split; [apply (Co i j); exact Lj | tauto]].
     apply (leaf_valid_root g i j). apply (gi_lvalid g G). exact Lj.
 Qed.
+
+(* ======================================================================================== *)
+(** ** Assembled statements used by Props/C13.v *)
+
+Theorem insert_reads_back_full g bs id : Forall unit_wf (flat bs) ->
+  g_store (insert g bs) = g_store g /\
+  abs (insert g bs) id =
+  match find_last id (flat bs) with
+  | Some u => match abs g id with Some _ => Some (uvals (g_store g) u) | None => None end
+  | None => abs g id
+  end.
+Proof. intro W. split; [apply store_insert | apply insert_reads_back_lemma; exact W]. Qed.
+
+Theorem independent_active_rule_lemma g : ginv g ->
+  (g_levels g = 1 -> forall id, In id (active_ids g) <->
+     exists i, id = Root i /\ i < length (g_phys g) /\ lifted g (Root i)) /\
+  (g_levels g <> 1 -> forall id, In id (active_ids g) <->
+     match id with
+     | Root i => i < length (g_phys g) /\ lifted g (Root i) /\ forall j, j < g_npr g -> lifted g (Leaf i j)
+     | Leaf i j => i < length (g_phys g) /\ lifted g (Root i) /\ j < g_npr g /\ lifted g (Leaf i j) /\
+                   exists j', j' < g_npr g /\ ~ lifted g (Leaf i j')
+     end) /\
+  (forall g' bs, extract_active g = (g', bs) ->
+     Forall2 (extracted g (g_store g')) (active_ids g) bs /\
+     NoDup (flat_map branch_addrs bs) /\ forall id, abs g' id = abs g id).
+Proof.
+  intro G. split; [exact (active_ids_rule1 g)|]. split; [exact (active_ids_rule2 g G)|].
+  intros g' bs X. destruct (extract_active_spec g g' bs G X) as [S [W [E [F N]]]].
+  split; [exact F|]. split; [exact N|]. intro id. rewrite S. apply abs_ext; assumption.
+Qed.
